@@ -99,6 +99,10 @@ SKEL = {
     "render_dir_name": "{% render 'sub/q.liquid' with x %}{% render 'sub/q.liquid' for xs as v %}",
     "render_loop_partial": "{% render 'loop', ys: xs %}{% for i in xs %}{% render 'loop', ys: xs %}{% endfor %}",
     "render_missing": "a{% render 'nope' %}b",
+    # a bound variable, an alias, a keyword argument and a caller variable sharing one name; arguments that mention each other
+    "include_name_clash": "{% include 'p' with x, x: y %}{% include 'p' with x as v, x: y %}{% include 'p' for xs, xs: y %}{% include 'p' for xs as v, v: y %}{% include 'p' with v, v: x, p: v %}{% include 'p', v: x, p: v, x: p %}",
+    "render_name_clash": "{% render 'p' with x, x: y %}{% render 'p' with x as v, x: y %}{% render 'p' for xs, xs: y %}{% render 'p' for xs as v, v: y %}{% render 'p' with y as v, v: x, p: v %}{% render 'p', v: x, p: v, x: p %}",
+    "with_macro_name_clash": "{% with x: y, y: x %}{{ x }}{{ y }}{% endwith %}{% macro m x, y: x %}{{ x }}/{{ y }}{% endmacro %}{% call m y, y: x %}{% call m x: y %}",
     "render_error_inside": "{% render 'err', x: x, y: y %}",
     # extra tags
     "extends_chain": "{% extends 'mid' %}{% block three %}t{{ x }}{{ block.super }}{% endblock %}",
@@ -174,7 +178,7 @@ CONDITIONS = []
 _QUICK = {"out_bracket_root", "out_nested_path", "out_filters", "out_ternary", "if_chain", "if_ops", "unless_chain", "case_when", "for_args",
           "for_continue", "for_break", "tablerow_args", "capture", "cycle", "ifchanged", "liquid_tag", "include_with_for", "include_dir_name",
           "include_break", "render_with_for", "render_dir_name", "render_missing", "extends_chain", "macro_call", "with_tag", "snippet",
-          "translate", "counters", "block_standalone", "render_error_inside", "if_lt", "if_all_ops", "if_contains", "out_range", "gettext_filters"}
+          "include_name_clash", "render_name_clash", "with_macro_name_clash", "translate", "counters", "block_standalone", "render_error_inside", "if_lt", "if_all_ops", "if_contains", "out_range", "gettext_filters"}
 _QUICK_STR = {"out_bracket_root", "out_filters", "out_string_ops", "if_contains", "if_empty_blank", "case_when", "for_hash_string", "include_with_for",
               "render_with_for", "translate", "capture", "out_ternary"}
 for _k in SKEL:
